@@ -799,8 +799,23 @@ def _already_listed(ev):
                     is_cs = xs is not None and isinstance(xs, ast.Subscript) and (dotted(xs.value) or "").endswith("candidate_set")
                     if is_cs and isinstance(y, Num) and y.lin == Lin.const(0) and pol is False:
                         return True
-            if c[0] in ("ne",) and pol and False:
-                return True
+            if c[0] == "atom" and isinstance(c[1], tuple) and c[1][0] == "cmp" and c[1][1] in ("In", "NotIn"):
+                info = c[2] or {}
+                b = info.get("b")
+                bn = getattr(b, "node", None)
+                is_cs = (isinstance(b, Opaque) and isinstance(b.desc, tuple) and len(b.desc) >= 2 and b.desc[0] == "call" and str(b.desc[1]).split(".")[-1] == "Counter") \
+                    or (bn is not None and (dotted(bn) or "").endswith("candidate_set"))
+                if is_cs and ((c[1][1] == "In" and pol) or (c[1][1] == "NotIn" and not pol)):
+                    return True
+            # `key in self.candidate_set` (true) / `key not in self.candidate_set` (false): the key is already listed
+            if c[0] == "atom" and isinstance(c[1], tuple) and c[1][0] == "truth" and isinstance(c[1][1], str) and "candidate_set" in c[1][1]:
+                try:
+                    t = ast.parse(c[1][1], mode="eval").body
+                except SyntaxError:
+                    t = None
+                if isinstance(t, ast.Compare) and len(t.ops) == 1 and (dotted(t.comparators[0]) or "").endswith("candidate_set"):
+                    if (isinstance(t.ops[0], ast.In) and pol) or (isinstance(t.ops[0], ast.NotIn) and not pol):
+                        return True
     return False
 
 
